@@ -46,6 +46,12 @@ macro_rules! seek_impl {
                     for extra in 1..3usize { if d.seek((words.len() + extra, snaps[0].1)).is_ok() { out.push(format!("{}: seek to position {} beyond {} words accepted", $what, words.len() + extra, words.len())); } }
                     if d.pos() != before { out.push(format!("{}: refused seek moved the decoder", $what)); }
                 }}; }
+                // non-seekable decoder conversions decode the same symbols and leave the encoder alone
+                { let before = enc.clone().into_compressed().unwrap();
+                  { let mut d = enc.as_decoder(); for i in (0..n).rev() { let sy = dec!(d, hist[i]); if sy != 1 { out.push(format!("as_decoder(): symbol {} decoded as {}", i, sy)); break; } } if n > 0 && !d.is_empty() { out.push("as_decoder(): not empty after decoding everything".into()); } }
+                  { let mut d = enc.clone().into_decoder(); for i in (0..n).rev() { let sy = dec!(d, hist[i]); if sy != 1 { out.push(format!("into_decoder(): symbol {} decoded as {}", i, sy)); break; } } }
+                  if enc.clone().into_compressed().unwrap() != before { out.push("as_decoder() changed the encoder".into()); }
+                  let mut c = enc.clone(); c.clear(); if !c.is_empty() || !c.into_compressed().unwrap().is_empty() { out.push("clear() does not give an empty coder".into()); } }
                 run!("as_seekable_decoder (borrowed Cursor)", enc.as_seekable_decoder(), |p: usize| p, false);
                 run!("into_seekable_decoder (owned Cursor)", enc.clone().into_seekable_decoder(), |p: usize| p, false);
                 run!("from_compressed(Cursor at end)", AnsCoder::<$W, $S, Cursor<$W, Vec<$W>>>::from_compressed(Cursor::new_at_write_end(words.clone())).ok().unwrap(), |p: usize| p, false);
